@@ -156,6 +156,7 @@ class Ctx:
                     "monitor": monitor,
                     "class": klass,
                     "assertions": self.assertions,
+                    "assertions_env": self.spec.get("assertions_env"),
                     "seed": self.seed,
                     "tier": self.tier,
                     "case": case,
